@@ -45,6 +45,7 @@ pub fn read_file_to_string<S: HasFileSystem + TexlangState>(
     file_location: texlang::parse::FileLocation,
     default_extension: &str,
 ) -> Result<(std::path::PathBuf, String), FileReadError> {
+    check_no_area(&file_location)?;
     let file_path = file_location.determine_full_path(
         vm.working_directory
             .as_ref()
@@ -70,6 +71,7 @@ pub fn read_file_to_bytes<S: HasFileSystem + TexlangState>(
     file_location: texlang::parse::FileLocation,
     default_extension: &str,
 ) -> Result<(std::path::PathBuf, Vec<u8>), FileReadError> {
+    check_no_area(&file_location)?;
     let file_path = file_location.determine_full_path(
         vm.working_directory
             .as_ref()
@@ -86,6 +88,24 @@ pub fn read_file_to_bytes<S: HasFileSystem + TexlangState>(
         Err(err) => Err(FileReadError {
             title: format!("could not read from `{}`", file_path.display()),
             underlying_error: err,
+        }),
+    }
+}
+
+/// File areas (`area:name`) are not supported yet; report this as a failure to read the
+/// file instead of panicking in [texlang::parse::FileLocation::determine_full_path].
+fn check_no_area(file_location: &texlang::parse::FileLocation) -> Result<(), FileReadError> {
+    match &file_location.area {
+        None => Ok(()),
+        Some(area) => Err(FileReadError {
+            title: format!(
+                "could not read from `{}{}`: file areas are not supported",
+                area, file_location.path
+            ),
+            underlying_error: std::io::Error::new(
+                std::io::ErrorKind::Unsupported,
+                "file areas are not supported",
+            ),
         }),
     }
 }
